@@ -248,6 +248,12 @@ class Interp:
             raise Unsupported("multi-item with")
         item = s.items[0]
         mgr = self.eval(frame, item.context_expr)
+        mv = self.ctx.from_val(mgr) if isinstance(mgr, SV) else mgr
+        if isinstance(mv, SV) and isinstance(mv.ty, TAbs) and "__enter__" in mv.ty.methods and "__exit__" in mv.ty.methods:
+            # an abstract library object that is a context manager (a lock, a semaphore): its assumed __enter__ / __exit__ contracts
+            obj = mv
+            mgr = CtxMgr(lambda: self.call(AbstractMethod(obj, "__enter__", obj.ty.methods["__enter__"]), [], {}),
+                         lambda exc: bool(self.call(AbstractMethod(obj, "__exit__", obj.ty.methods["__exit__"]), [None, None, None], {})) and False)
         if not isinstance(mgr, CtxMgr):
             raise Unsupported("with on %r" % (mgr,))
         v = mgr.enter()
